@@ -120,6 +120,32 @@ def check(ctx):
     ctx.floor('C15.S1', 'refusing paths analysed', total_raise, 30)
     ctx.sub(plain_containers)
     ctx.sub(s2_tables)
+    ctx.sub(clock_advances)
+
+
+def clock_advances(ctx):
+    """'A timestamp earlier than the portfolio's clock' is refused - so the clock has to BE the time of the last accepted cash movement or fill: every accepting
+    path of the three requests that carry a time of their own sets self.current_dt to that time.  (A price mark does not move the clock in this code base.)"""
+    from ..lib import heap_writes, normal, V, A
+    for qn, stamp in (('Portfolio.subscribe_funds', V('dt')), ('Portfolio.withdraw_funds', V('dt')), ('Portfolio.transact_asset', A('txn', 'dt'))):
+        fn = ctx.fn(qn)
+        try:
+            ps = normal(summarise(ctx, fn, policy=default_policy))
+        except Undecided as u:
+            ctx.undecided('C15.S2', '%s: an accepted request moves the portfolio clock to its own time' % qn, fn.site(), str(u)[:120])
+            continue
+        for p in ps:
+            ws = [w for w in heap_writes(p, 'current_dt') if w.loc == A('self', 'current_dt')]
+            what = '%s: an accepted request moves the portfolio clock to its own time [%s]' % (qn, cond_str(p)[:70])
+            if not ws:
+                ctx.violation('C15.S2', what, fn.site(), 'no write of self.current_dt on this accepting path: a later request stamped before this one is then accepted instead of refused',
+                              key='C15.S2|%s|clock' % qn)
+            elif ws[-1].value == stamp:
+                ctx.holds('C15.S2', what, ws[-1].site)
+            elif any(s_[0] in ('havoc', 'lc') or (s_[0] == 'call' and s_[1][0] == 'fn') for s_ in T.subterms(ws[-1].value or T.ZERO)):
+                ctx.undecided('C15.S2', what, ws[-1].site, 'clock set to %s' % fmt(ws[-1].value)[:80])
+            else:
+                ctx.violation('C15.S2', what, ws[-1].site, 'the clock is set to %s, not to the time of the request (%s)' % (fmt(ws[-1].value)[:80], fmt(stamp)), key='C15.S2|%s|clock' % qn)
 
 
 def s2_tables(ctx):
